@@ -21,6 +21,7 @@ import (
 	"context"
 	"errors"
 	"fmt"
+	"regexp"
 	"strings"
 	"sync"
 	"testing"
@@ -146,6 +147,7 @@ type subsc struct {
 	wasTainted bool
 	// the client resubscribed after a restore with a non-zero index and was NOT sent a new snapshot
 	resumedAcross bool
+	snapSubNo     int // ordinal of the subscription that delivered the client's latest snapshot
 	nonTypical    string // service list: an update received since the last snapshot that no change of the typical-kind names accounts for
 	// obligations to have left the subscription that was open when a restore / an ACL change of the
 	// client's token took effect: cause -> number of subscribes the client had done by then
@@ -604,12 +606,12 @@ func (s *sched) checkDelivery(sb *subsc, dl delivery, canQuery bool) {
 		if !dl.snapshot && d <= info.commit {
 			key = "C11:publish-window:earlier-commit-delivered-after-snapshot"
 		}
-		if dl.snapshot && sb.lastKind == "event" {
-			// the snapshot carries the index the STORE reports for the subject; the earlier event carried
-			// its commit index. Did that commit change the subject's answer without the store advancing
-			// the index it reports for it?
-			if r, ok := s.lookup(sj, epoch, sb.lastIdx); ok && r.commit == sb.lastIdx && r.qidx < r.commit {
-				key = "C11:" + sj.Class + ":snapshot-index-below-delivered-event-index:store-index-not-advanced-by-the-commit"
+		if dl.snapshot {
+			// a snapshot carries the index the STORE reports for the subject. If it is exactly what a direct
+			// query reported when the client subscribed, the stream only passed on that the store's own
+			// index for this query is not monotonic / lags behind commits that changed the answer (C06's matter).
+			if r, ok := s.lookup(sj, epoch, info.commit); ok && r.qidx == d {
+				key = "C11:" + sj.Class + ":snapshot-index-below-earlier-delivered-index:store-query-index-not-monotonic"
 			}
 		}
 		if sj.Class == "service-list" && sb.nonTypical != "" {
@@ -626,6 +628,14 @@ func (s *sched) checkDelivery(sb *subsc, dl delivery, canQuery bool) {
 			fmt.Sprintf("client %d (%s): %s delivery at index %d follows a %s delivery at index %d (subscription opened with index %d when the last commit was @%d)", sb.id, sj.Name, kind, d, sb.lastKind, sb.lastIdx, info.index, info.commit),
 			map[string]any{"client": sb.id, "subject": sj.Name, "index": d, "previous": sb.lastIdx, "direct_query_index_history": s.qidxHistory(sj, epoch)})
 		s.run.Count("index-decreases")
+		if key == "C11:publish-window:earlier-commit-delivered-after-snapshot" {
+			// the view went back in time and replays history on top of a newer snapshot: what it holds is
+			// not judged again before its next snapshot
+			sb.tainted = true
+		}
+	}
+	if dl.snapshot {
+		sb.snapSubNo = dl.subNo
 	}
 	if dl.snapshot {
 		sb.nonTypical = ""
@@ -654,6 +664,12 @@ func (s *sched) checkDelivery(sb *subsc, dl delivery, canQuery bool) {
 	}
 	if s.multi[d] {
 		s.run.Count("deliveries:of-multi-batch-commit")
+		return
+	}
+	if !dl.snapshot && dl.subNo == sb.snapSubNo && d <= info.commit {
+		// the batch was committed before this subscription's snapshot was handed out: a replay of (or a
+		// catch-up towards) what the snapshot already contains; the intermediate view is not judged
+		s.run.Count("deliveries:replay-after-snapshot")
 		return
 	}
 	s.run.Count("delivery-checks")
@@ -720,7 +736,7 @@ func (s *sched) classify(sb *subsc, phase string, exp rec, got string, ops []str
 					continue
 				}
 				for _, l := range strings.Split(r.content, "\n") {
-					if strings.HasPrefix(l, id+" = ") && !strings.Contains(l, "Connect:{Native:true}") && !strings.Contains(l, `Kind:"`) {
+					if lid, _, _ := strings.Cut(l, " = "); strings.EqualFold(lid, id) && !strings.Contains(l, "Connect:{Native:true}") && !strings.Contains(l, `Kind:"`) {
 						return "C11:connect:instance-no-longer-connect-native:no-deregister-update", fmt.Sprintf("%s is still in the view of the Connect topic; the instance was re-registered without Connect.Native and is no longer in the direct query result, no update removed it", id)
 					}
 				}
@@ -1040,14 +1056,38 @@ func fsmEnc(t structs.MessageType, req any) []byte {
 
 var tokensOfClients = []string{"", secretA, secretB}
 
+var idNodeRe = regexp.MustCompile(`"ID":"([^"]*)","Node":"([^"]*)"`)
+
+var canonicalNodeID = map[string]string{"n1": string(gen.NodeIDs[0]), "n2": string(gen.NodeIDs[1]), "n3": string(gen.NodeIDs[2]), "n1x": ""}
+
+// acceptable: the workload keeps node identities stable. A command that names a node together with
+// the ID of ANOTHER node (the shared generator produces those on purpose: renames by ID, ID conflicts)
+// is redrawn; those catalog paths are the subject of C01/C07, here they would only blur which
+// streaming behaviour a disagreement comes from.
+func acceptable(c gen.Cmd) bool {
+	for _, m := range idNodeRe.FindAllStringSubmatch(c.Desc, -1) {
+		if m[1] != "" && m[1] != canonicalNodeID[strings.ToLower(m[2])] {
+			return false
+		}
+	}
+	return true
+}
+
 // genCommand draws the next catalog / config-entry write; half of the time it insists on one that
 // names the service the subjects are about.
 func (s *sched) genCommand() gen.Cmd {
 	st := s.r.fsm.State()
-	c := s.g.Next(st, s.idx+1)
+	draw := func() gen.Cmd {
+		for {
+			if c := s.g.Next(st, s.idx+1); acceptable(c) {
+				return c
+			}
+		}
+	}
+	c := draw()
 	if s.rng.Chance(50) {
 		for try := 0; try < 6 && !strings.Contains(c.Desc, `"web"`); try++ {
-			c = s.g.Next(st, s.idx+1)
+			c = draw()
 		}
 	}
 	return c
